@@ -552,6 +552,11 @@ func (env *Env) callExpr(x *ECall) (TV, error) {
 			return TV{}, errf("deref of non-pointer %s", args[0].ty)
 		}
 		return TV{t: app("select", env.mem.get(enc.cellComp(p.Elem())), args[0].t), ty: p.Elem()}, nil
+	case "comparable":
+		if err := evalArgs(); err != nil {
+			return TV{}, err
+		}
+		return TV{t: not(app("uncomparable", app("tagof", args[0].t))), ty: tBool}, nil
 	case "tagof":
 		if err := evalArgs(); err != nil {
 			return TV{}, err
